@@ -179,7 +179,7 @@ def plan(seed, table, matrix, quick, pool):
     named = sorted(m for m, r in table.items() if r['shape'] in ('node', 'op', 'list') and not m[:1].isupper()
                    or m in ('ExceptHandler', 'Tuple', 'Tuple_elt', 'Import_name', 'ImportFrom_name'))
     allmodes = sorted(table)
-    per_pair, nvar = (4, 4) if quick else (30, 8)
+    per_pair, nvar = (4, 4) if quick else (24, 8)
 
     # (G) mode x kind matrix of the spec, concretised with corpus fragments in layouts
     for mode, kind in sorted(matrix):
@@ -220,7 +220,7 @@ def plan(seed, table, matrix, quick, pool):
 
     # cross-mode: valid fragments of one kind in modes that (mostly) do not admit them
     kinds = sorted(pool)
-    for _ in range(1500 if quick else 30000):
+    for _ in range(1500 if quick else 20000):
         k = rng.choice(kinds)
         t = rng.choice(pool[k])
         if len(t) > 300:
@@ -229,7 +229,7 @@ def plan(seed, table, matrix, quick, pool):
         cases.append({'mode': m, 'text': t, 'cat': 'cross:' + k, 'kind': k})
 
     # the guessing modes on fragments of every kind (FST(src) with no mode is 'all')
-    for _ in range(500 if quick else 12000):
+    for _ in range(500 if quick else 9000):
         k = rng.choice(kinds)
         t = rng.choice(pool[k])
         if len(t) > 400:
@@ -245,7 +245,7 @@ def plan(seed, table, matrix, quick, pool):
         own = pool.get(m) or pool.get(row['kinds'][0] if row['kinds'] else '', [])
         short = [t for t in own if len(t) <= 80 and '\n' not in t]
         na = [t for t in short if not t.isascii()]
-        for rep in range(3 if quick else 12):
+        for rep in range(3 if quick else 10):
             # rep 0: the placeholders; then alternately non-ASCII and any corpus fragment of the mode's own kind
             if rep % 3 == 0 and rep < 3 or not short:
                 v1, v2 = (phs[0] if phs else 'a'), (phs[-1] if phs else 'b')
@@ -263,7 +263,7 @@ def plan(seed, table, matrix, quick, pool):
             cases.append({'mode': m, 'text': s, 'cat': 'invalid-src', 'kind': ''})
 
     # token deletion / insertion mutants of valid fragments, in the modes that admitted the original
-    for _ in range(400 if quick else 12000):
+    for _ in range(400 if quick else 9000):
         k = rng.choice(kinds)
         t = rng.choice(pool[k])
         if len(t) > 200:
